@@ -41,6 +41,65 @@ MUTATORS = re.compile(r"^std::vec::Vec::<T, A>::(dedup\w*|sort\w*|retain\w*|trun
 SPELLING_EQ = re.compile(r"^<serde_json::(Value|Number) as std::cmp::PartialEq>::(eq|ne)$|^core::slice::<impl \[T\]>::contains$|^<std::vec::Vec<.*> as std::cmp::PartialEq.*>::(eq|ne)$|^<serde_json::Map<.*> as std::cmp::PartialEq>::(eq|ne)$")
 
 
+def merge_loop_form(ctx, facts, roles, mb, vecp, cfg):
+    """merge written with loops: one outer loop over the operand list itself, one switch on the kind of its element;
+    an Array element contributes a clone of each member through one inner loop over its payload, every other kind
+    a clone of the element.  Returns False when this is not the shape (the adaptor-form clauses then report)."""
+    from . import panic as PN
+    from .core import strip_payload
+    outer = None
+    nexts = {}
+    for (h, bl, srcs) in PN.loops_of(mb):
+        for bi in sorted(bl):
+            t = mb.blocks[bi]["term"]
+            if t["k"] == "Call" and (callee_path(t) or "").endswith("::next"):
+                it = strip_refs(mb.trace(t["args"][0]))
+                while it[0] == "call" and it[1] and re.search(r"IntoIterator>::into_iter$|::iter$|Deref>::deref$", it[1]["path"]):
+                    it = strip_refs(it[2][0])
+                nexts[bi] = it
+                if it == ("arg", vecp):
+                    outer = bi
+    if outer is None:
+        return False
+
+    def is_elem(e, which=None):
+        x = strip_payload(strip_refs(e))
+        return x[0] == "call" and x[1] is not None and x[1]["path"].endswith("::next") and (x[3] == outer if which is None else x[3] == which)
+
+    ctx.ok("K1.one-pass", "merge makes one pass (a loop) over its operands (%s)" % cfg, nontrivial=True)
+    ctx.ok("K1.over-operands", "the pass iterates the operand list itself (%s)" % cfg, nontrivial=True)
+    sws = []
+    for bi in sorted(mb.reachable()):
+        t = mb.blocks[bi]["term"]
+        if t["k"] == "SwitchInt":
+            e = mb.trace(t["discr"])
+            if e[0] == "discr" and e[2] == VALUE:
+                sws.append((bi, is_elem(e[1])))
+    ctx.check(len(sws) == 1 and sws[0][1], "K1.kind-switch", "merge inspects the kind of each operand once (%s)" % cfg, "%d switches on a value's kind in merge (on the operand itself: %s)" % (len(sws), [x[1] for x in sws]), where=mb.where(), fn=mb.key, nontrivial=True)
+    inner_nexts = {bi: it for bi, it in nexts.items() if bi != outer}
+    for v in facts.variants(VALUE):
+        restrict = P.specialise_unit(roles, mb.key, lambda e, a, _v=v: _v if (a == VALUE and is_elem(e)) else None)
+        bl = restrict[mb.key]
+        pushed = []
+        for bi in sorted(bl):
+            t = mb.blocks[bi]["term"]
+            if t["k"] == "Call" and callee_path(t) == "std::vec::Vec::<T, A>::push":
+                val = strip_refs(mb.trace(t["args"][1]))
+                src = strip_refs(val[2][0]) if val[0] == "call" and val[1] and val[1]["path"] == CLONE else None
+                pushed.append(src)
+        inner_live = [bi for bi in inner_nexts if bi in bl]
+        if v == "Array":
+            good = len(pushed) == 1 and pushed[0] is not None and len(inner_live) == 1 and is_elem(pushed[0], inner_live[0]) \
+                and expr_mentions(inner_nexts[inner_live[0]], lambda y: y[0] == "downcast" and y[2] == "Array" and is_elem(y[1]))
+            what = "a clone of each element" if good else "%s (inner loops: %d)" % ([show_expr(x)[:50] if x else None for x in pushed], len(inner_live))
+        else:
+            good = len(pushed) == 1 and pushed[0] is not None and is_elem(pushed[0]) and not inner_live
+            what = "a clone of itself" if good else "%s" % [show_expr(x)[:50] if x else None for x in pushed]
+        ctx.check(good, "K1.contribution", "merge: a %s operand contributes %s (%s)" % (v, "its elements" if v == "Array" else "itself", cfg),
+                  "in merge a %s operand contributes %s" % (v, what), where=mb.where(), fn=mb.key, nontrivial=True, sample={"kind": v, "contributes": what})
+    return True
+
+
 def run(ctx):
     ctx.explanation = __doc__
     ctx.rule = "instances = merge: pass/shape facts + 6 kinds; in: 6 haystack kinds × needle kinds + unit taint; membership equality: 36 kind pairs; non-trivial = specialisation / def-use"
@@ -60,17 +119,21 @@ def run(ctx):
             ctx.fail("K1.append-only", "merge|%s" % callee_path(s.term).rsplit("::", 1)[1], "merge edits its result with %s (order / multiplicity would change)" % callee_path(s.term), where=s.where(), fn=s.body.key)
         # the pass over the operands
         consumers = [s for s in mu.calls_path(r"(Iterator::|Iterator>::)(fold|for_each|try_fold|map|flat_map)$") if s.body.key == mb.key]
-        ctx.check(len(consumers) == 1, "K1.one-pass", "merge makes one pass over its operands (%s)" % cfg, "%d iterator consumers in merge" % len(consumers), where=mb.where(), fn=mb.key, nontrivial=True)
-        for s in consumers:
+        if not consumers and merge_loop_form(ctx, facts, roles, mb, vecp, cfg):
+            consumers = None
+        if consumers is not None:
+            ctx.check(len(consumers) == 1, "K1.one-pass", "merge makes one pass over its operands (%s)" % cfg, "%d iterator consumers in merge" % len(consumers), where=mb.where(), fn=mb.key, nontrivial=True)
+        for s in consumers or []:
             it = strip_refs(mb.trace(s.term["args"][0]))
             while it[0] == "call" and it[1] and re.search(r"IntoIterator>::into_iter$|::iter$|Deref>::deref$", it[1]["path"]):
                 it = strip_refs(it[2][0])
             ctx.check(it == ("arg", vecp), "K1.over-operands", "the pass iterates the operand list itself (%s)" % cfg,
                       "merge iterates %s instead of its operand list: some operand shapes are rewritten before flattening (more than one level can be spliced)" % show_expr(it)[:100], where=s.where(), fn=mb.key, nontrivial=True)
         # per operand kind
-        hosts = [(b, sc) for b in mu.bodies for sc in kind_of_param_switches(b) if b.key != mb.key or True]
+        hosts = [] if consumers is None else [(b, sc) for b in mu.bodies for sc in kind_of_param_switches(b) if b.key != mb.key or True]
         hosts = [(b, sc) for (b, sc) in hosts if sc[0] in ("arg", "carg") or sc[0] == "arg"]
-        ctx.check(len(hosts) == 1, "K1.kind-switch", "merge inspects the kind of each operand once (%s)" % cfg, "%d switches on a value's kind in merge — more than the outer kind of an operand is inspected" % len(hosts), where=mb.where(), fn=mb.key, nontrivial=True)
+        if consumers is not None:
+            ctx.check(len(hosts) == 1, "K1.kind-switch", "merge inspects the kind of each operand once (%s)" % cfg, "%d switches on a value's kind in merge — more than the outer kind of an operand is inspected" % len(hosts), where=mb.where(), fn=mb.key, nontrivial=True)
         for (hb, sc) in hosts[:1]:
             sc_x = strip_refs(hb._xsub(sc, 0))
             for v in facts.variants(VALUE):
